@@ -3,7 +3,7 @@
 
 use std::collections::BTreeMap;
 
-use crate::api::Info;
+use crate::common::Info;
 use crate::talloc::{self, Grant};
 
 #[derive(Clone, Copy, Debug, PartialEq, Eq)]
